@@ -8,7 +8,7 @@ from enum import Enum, IntEnum
 from pathlib import Path
 from typing import Dict, List, Optional
 
-from experimaestro import (Config, Constant, LightweightTask, Meta, Option, Param, Task, deprecate, pathgenerator)
+from experimaestro import (Config, Constant, LightweightTask, Meta, Option, Param, Task, deprecate, field, pathgenerator)
 from typing import Annotated
 
 
@@ -188,6 +188,9 @@ class V2(N):
     fl: Param[bool] = False
     em: Param[str] = ""
     el: Param[List[int]] = []
+    # new parameters whose default is WRITTEN in another accepted type than the declared one
+    fz: Param[float] = 1
+    iz: Param[int] = 2.0
 
 
 # ---- constants / type identifiers (C03) -------------------------------------
@@ -220,13 +223,19 @@ class EH(N):
     x: Param[int] = 0
 
 
+class GenV(N):
+    """a GENERATED parameter that is not a path (its value appears when the configuration is sealed)"""
+    x: Param[int] = 0
+    gs: Param[int] = field(default_factory=lambda: 42)
+
+
 class S2(N):
     """two sibling strings (the unterminated-string collision family)"""
     a: Param[str]
     b: Param[str] = ""
 
 
-CLASSES = {c.__name__: c for c in [K1, K2, W1, W2, S2, EH, TaskSelf, Leaf, Inner, Bag, Req, TaskA, TaskOut, Pre, Init, NewL, OldL, NewT, OldT, V1, V2]}
+CLASSES = {c.__name__: c for c in [K1, K2, W1, W2, S2, GenV, EH, TaskSelf, Leaf, Inner, Bag, Req, TaskA, TaskOut, Pre, Init, NewL, OldL, NewT, OldT, V1, V2]}
 ENUMS = {"Color": Color, "Shape": Shape, "Level": Level, "Mode": Mode}
 
 
